@@ -247,6 +247,10 @@ def _edge_oriented(ctx, b, is_ksp):
                     ctx.check(list(t[1]) == [t1, t2], name + ":adjacent-route-order", "adjacent-case route is not [origin edge, destination edge]", b.where(bb), detail="[t(e1), t(e2)]")
     okt = pairs is not None and set(pairs) == {e1d, e2d} and pairs[e2d].get("terminal_vertex") == e2s and pairs[e2d].get("edge_traversal") == t2 and pairs[e1d].get("terminal_vertex") == e1s and pairs[e1d].get("edge_traversal") == t1
     ctx.check(okt, name + ":adjacent-tree", "adjacent-case tree is not {dst(e2): (parent src(e2), traversal of e2), dst(e1): (parent src(e1), traversal of e1)}: %s" % ({short(k): {n: short(v)[:50] for n, v in d.items()} for k, d in pairs.items()} if pairs else None), b.where())
+    if not is_ksp and pairs is not None:
+        # the adjacent-case tree {dst(e2): parent src(e2) = dst(e1), dst(e1): parent src(e1)} is a 2-cycle when dst(e2) == src(e1)
+        # (origin a->b, destination b->a): edge_oriented_route then starts at its own stop vertex and returns an empty route
+        ctx.check(frozenset([e1s, e2d]) in eqs, name + ":adjacent-round-trip-closes-a-cycle", "the adjacent-case tree is built whatever dst(destination edge) is: for origin a->b and destination b->a it is the cycle a -> b -> a and the backtrack from a to a returns an empty route as a success", b.where())
     return tm, (e1s, e1d, e2s, e2d), with_t
 
 
